@@ -12,7 +12,10 @@ Every C statement that touches these is one record update, in the C order, so th
 stale fields (a removed node keeps its `p_prev`/`p_next`) are stale in the model too.
 
 Each function runs under `xstream_list_lock`, i.e. atomically: concurrent callers are
-the interleavings of whole operations, which is what `runOps` quantifies over.
+the interleavings of whole operations, which is what `runOps` quantifies over.  That this
+is a faithful account of concurrent callers is not assumed: `Model.RankConc` has the lock
+protocol (test_and_set, scan, update, release as separate steps of interleaved actors) and
+`Props.C17.Conc.conc_refines_atomic` proves the refinement to `runOps`.
 
 `Option`: `none` = the C code would fail an `ABTI_ASSERT` or walk more than
 `num_xstreams + 1` nodes (a cycle / a list longer than its counter), or an API
